@@ -64,6 +64,13 @@ func c08RunE2E(w0 *kernel.Worker, j *c08Job, rep *kernel.Report) (*Fail, error) 
 		if w != w0 {
 			w.Close()
 		}
+		// A size-triggered segment rotation changes the process for good (known finding: series first seen after it are
+		// not searchable), so a worker that performed one is not reused: later histories must start from a fresh instance.
+		for _, st := range j.Steps {
+			if st.Op == "segment" {
+				w0.Kill()
+			}
+		}
 	}()
 	die := func(err error) (*Fail, error) {
 		fp, what, herr := diedResult("C08", err)
